@@ -39,22 +39,31 @@ class C08(Prop):
     search_n = 600
     design_ref = "5/C08"
     technique = ("Lean 4 proof (registry/inventory invariant preserved by every primitive and, by induction on fuel, by every "
-                 "history with re-entrant hooks) + translator-generated hash table + model/implementation correspondence "
-                 "with a walker over the real structures")
+                 "history with re-entrant hooks; crash freedom and termination of the cycle walk; soundness of the "
+                 "objects(filter) walker) + translator-generated hash table, operators, conditions and statement orders + "
+                 "model/implementation correspondence with a walker over the real structures")
     level_text = ("Lean 4 theorems about an executable model of the object registries (otable.c hash chains with "
                   "move-to-front, obj_list, obj_list_destruct, living-name hash, super/contains links) and of load_object, "
                   "clone_object, move_object with its init() fan-out, destruct_object with its move_or_destruct loop and "
-                  "remove_destructed_objects: the invariant WorldInv (lookup = the unique live object of that name; x in "
+                  "remove_destructed_objects, present(), command(), objects(filter) with its callbacks, catch() around any "
+                  "operation, the heart-beat round: the invariant WorldInv (lookup = the unique live object of that name; x in "
                   "contains(y) <-> super(x) = y; no duplicates; forest; destructed objects in no registry, no inventory, "
-                  "without environment) is preserved by every task for all hook oracles, all fuels, all histories; the model "
-                  "is tied to the source by the regenerated Pearson hash table / hash sizes and by running the real driver "
+                  "without environment) is preserved by every task for all hook oracles, all fuels, all histories; no task "
+                  "reaches a NULL / dangling dereference (no_crash) or an endless super walk (no_hang); objects(filter) lists "
+                  "only live objects, in obj_list order (objects_filter_sound); the model is tied to the source by the "
+                  "regenerated Pearson hash table / hash sizes / prefix lengths / comparison operators, by 17 tie obligations "
+                  "over regenerated statement orders and conditions, and by running the real driver "
                   "and the model on the same generated histories with a walker over the real structures after every step; "
                   "the Lean specification oracle judges every implementation trace")
     level_note = ("trusted: Lean kernel; extract.py + props/c08.py gen_extra (regex transcription of T[], ObjHash, "
                   "hash_living_name); the correspondence harness (differential, only the generated histories); hooks are oracle "
-                  "scripts; crash freedom is proved (no_crash); termination of the super walk is not ("
-                  "never observed to be `hang`) nor the string-level top theorem judge(model trace) = []")
-    rule = ("[audit round: adds move_object(string) / first_inventory(string) with loads that run create() hooks, present() with "
+                  "scripts; crash freedom and termination of the super walk are proved (no_crash, no_hang); the string-level "
+                  "top theorem judge(model trace) = [] is not (its semantic clauses are the invariant theorems); "
+                  "destructed_never_called is about the model's apply - the C apply() does not refuse destructed objects, "
+                  "each call site tests first (checked by the oracle clause destructed-called on every logged callback)")
+    rule = ("[extend round: adds objects(filter) issued from the top level and from hooks with filters that destruct the "
+            "object asked about / others / the caller, clone, move, nest, raise errors; catch() around destructs, moves, "
+            "loads and error() inside every hook kind; oracle self-test of 94 traces] [audit round: adds move_object(string) / first_inventory(string) with loads that run create() hooks, present() with "
             "id() hooks, add_action / command(), the backend tick (heart_beat() of every enabled object incl. the last one "
             "destructing itself), errors inside every hook kind, heart_beats() listing; oracle self-test of 82 traces] "
             "cases = corpus + known-finding inputs + boundary list (failing moves, self-destructing create, destruct during the "
@@ -65,10 +74,9 @@ class C08(Prop):
             "after every step (small) or periodically (large); a case is non-trivial when its trace has >= 2 lines; "
             "distinct = distinct canonical implementation trace")
     not_covered = ["add_action flags (V_SHORT / V_NOSPACE), function-pointer actions, action functions returning 0 (illegal_sentence_action), remove_action, notify_fail",
-                   "virtual objects (master compile_object), the master / simul_efun reload path of destruct_object, shadows, swapping, sockets",
-                   "catch() inside hooks (error_handler resets restrict_destruct even for caught errors)",
-                   "objects(filter) with a filter that destructs objects walks next_all into obj_list_destruct (by reading; not generated)",
-                   "termination of move_object's super walk (outcome `hang`) is not proved (crash freedom is: no_crash)",
+                   "virtual objects (master compile_object), the master / simul_efun reload path of destruct_object, swapping, sockets (shadows are compiled out: NO_SHADOWS)",
+                   "objects(filter): the function-pointer form, O_HIDDEN / valid_hide, populations above 1000 objects (extend_string branch); completeness (every object live before and after is listed) is an oracle clause, not a theorem",
+                   "present() 1-argument / object-argument forms, deep_inventory, say / tell_room / shout walks (no listener objects), reset() / clean_up() walk of look_for_objects_to_swap",
                    "the string-level top theorem judge(model trace) = [] is not proved; its semantic clauses are (reachable_inv, no_crash, init_only_adjacent, destructed_never_*)",
                    "call_out / heart_beat / input_to references to destructed objects (C10, C11)"]
 
